@@ -363,7 +363,7 @@ structure Store where
   mem : ByteArray := ByteArray.empty
   memMax : Nat := 65536          -- in pages
   table : Array (Option Nat) := #[]
-  /-- a NaN pattern was made observable as integer bits (store / reinterpret): the
+  /-- a NaN pattern was made observable (store / reinterpret as integer bits, or its sign copied by `copysign`): the
       specification leaves sign and payload of computed NaNs open, so integer results and
       memory contents that depend on them are not comparable bit for bit -/
   nanBits : Bool := false
@@ -553,9 +553,12 @@ def step (m : Module) (c : Config) : StepResult :=
     | .fun_ .w64 op, .f64 a :: st => .next { c with stack := .f64 (funop64 op a) :: st }
     | .fbin .w32 op, .f32 b :: .f32 a :: st =>
       .next { c with stack := .f32 (fbinop32 op a b) :: st,
-                     store := (c.store.haz 2 (f32InexactBin op a b)).haz 4 (op == .div && fmag b == 0) }
+                     store := (({ c.store with nanBits := c.store.nanBits || (op == FBinOp.copysign && fIsNaN 23 b) }).haz 2
+                                (f32InexactBin op a b)).haz 4 (op == FBinOp.div && fmag b == 0) }
     | .fbin .w64 op, .f64 b :: .f64 a :: st =>
-      .next { c with stack := .f64 (fbinop64 op a b) :: st, store := c.store.haz 4 (op == .div && fmag b == 0) }
+      .next { c with stack := .f64 (fbinop64 op a b) :: st,
+                     store := ({ c.store with nanBits := c.store.nanBits || (op == FBinOp.copysign && fIsNaN 52 b) }).haz 4
+                                (op == FBinOp.div && fmag b == 0) }
     | .frel .w32 op, .f32 b :: .f32 a :: st =>
       .next { c with stack := .i32 (frelop 23 op a b) :: st, store := c.store.haz 1 (fIsNaN 23 a || fIsNaN 23 b) }
     | .frel .w64 op, .f64 b :: .f64 a :: st =>
